@@ -146,6 +146,39 @@ def run(ctx):
         if r["distinct"] != 1:
             common.report(ctx, "http:nondeterministic", "the same request %s (headers %s) got %d distinct answers in %d runs: %s" % (c["target"], c["headers"], r["distinct"], c["n"], r["records"][:2]),
                           dict(case=c, answers=r["records"][:3], counts=r["counts"]))
+    # ---- (6) nothing depends on what the process executed BEFORE: the corpus of (4) plus programs in which a library call is
+    # refused / fails part-way and is followed by a call that succeeds, executed round after round in ONE process, every round in another order
+    def guarded(call):
+        return "如何试？\n    输出%s\n    拦截异常：\n        输出“refused”\n" % call
+    hist = [
+        ("generate-refused-then-generate", "导入《@JSON》\n" + guarded("（生成JSON：【“x” = 1，“y” = 1*10^308 * 10】）") + "（显示：（试））\n（显示：（生成JSON：【“a” = 1，“b” = 【2，3】】））\n0\n"),
+        ("generate-refused-deep", "导入《@JSON》\n" + guarded("（生成JSON：【“p” = 【1，2，【“q” = “text”，“r” = 【1*10^308 * 10】】】】）") + "（显示：（试））\n0\n"),
+        ("generate-only", "导入《@JSON》\n（显示：（生成JSON：【“k” = “v”，“n” = 【1，2，3】】））\n0\n"),
+        ("generate-list-only", "导入《@JSON》\n（显示：（生成JSON：【“m” = 【“z” = 空，“t” = 真】】））\n0\n"),
+        ("parse-fails-then-parse", "导入《@JSON》\n" + guarded("（解析JSON：“{\"a\":[1,2,{\"b\":”）") + "（显示：（试））\n（显示：（解析JSON：“{\"c\":[1,{\"d\":2}]}”））\n0\n"),
+        ("parse-only", "导入《@JSON》\n（显示：（解析JSON：“{\"e\":{\"f\":[true,null]}}”））\n0\n"),
+        ("format-fails-then-format", guarded("“{#.2}-{}-{” % 【1，2】") + "（显示：（试））\n（显示：“{#.2}|{}” % 【1.5，“s”】）\n0\n"),
+        ("format-only", "（显示：“<{#+}>{}” % 【2，【1】】）\n0\n"),
+        ("text-methods-fail-then-work", guarded("以“abc”（取样：2、9）") + "（显示：（试））\n（显示：以“a,b,c”（分隔：“,”））\n（显示：以【“x”，“y”】（拼接：“-”））\n0\n"),
+        ("uncaught-error-in-call", "如何深？\n    输入层\n    如果层 == 0：\n        输出1 / 0\n    输出（深：层 - 1）\n（显示：“start”）\n（深：4）\n"),
+        ("caught-error-in-call", "如何深？\n    输入层\n    如果层 == 0：\n        输出1 / 0\n    输出（深：层 - 1）\n如何护？\n    输出（深：3）\n    拦截异常：\n        输出其内容\n（显示：（护））\n0\n"),
+        ("custom-exception-uncaught", "定义错：\n    其内容 = “c”\n抛出错：“m”！\n"),
+        ("display-many", "（显示：【1，【2，【3】】】、【“a” = 【“b” = 1】】、“t”、真、空、1.5）\n0\n"),
+        ("random-untouched", "令甲 = 【】\n令数 = 0\n每当数 < 5：\n    数 = 数 + 1\n    以甲（后增：数 * 数）\n（显示：甲、以甲（逆序）、以甲（合并：【0】））\n0\n"),
+        ("file-read-missing", "导入《@文件》\n" + guarded("（读取文件：“/nonexistent/无此文件”）") + "（显示：（试））\n0\n"),
+    ]
+    ocorpus = [(t, sr) for t, sr in others] + hist
+    ocase = dict(id=0, srcs=[sr for _, sr in ocorpus], rounds=8 if ctx.tier == "quick" else 40, seed=ctx.seed)
+    ores = common.run_harness(ctx, znh, "orderrepeat", [ocase], timeout=1500, args=["-t", "600"])
+    if len(ores) != 1 or ores[0]["obs"] != "done":
+        common.report(ctx, "history:%s" % (ores[0]["obs"] if ores else "none"), "orderrepeat driver: %s" % (ores[0].get("detail", "")[:300] if ores else ""), dict(corpus=[t for t, _ in ocorpus]))
+    else:
+        runs += ores[0]["runs"]
+        for dd in (ores[0]["differing"] or []):
+            t, sr = ocorpus[dd["program"]]
+            prevs = [ocorpus[vv["first_seen"][2]][0] if vv["first_seen"][2] >= 0 else "(nothing)" for vv in dd["variants"]]
+            common.report(ctx, "history:%s:depends-on-earlier-executions" % t.split(":")[0], "program '%s' gave %d different outcomes in one process depending on what ran before it (first seen after: %s): %s" %
+                          (t, len(dd["variants"]), prevs, [(vv["record"].get("display"), vv["record"].get("msg")) for vv in dd["variants"]][:2]), dict(source=sr, variants=dd["variants"][:3]))
     cov = dict(traces_validated_against_impl=len(cases) + len(hcases), samples=[dict(dicteq_vector=ev[77]), dict(site_table=modelled[:3])],
                evaluations=runs, distinct_nontrivial=len(cases),
                rule="(1) TLC explores every iteration order of every modelled loop kind over all maps with <=3 entries: the result must equal the canonical order's "
@@ -154,7 +187,9 @@ def run(ctx):
                     "dictionaries over <=3 keys x 2 values x all insertion orders: 为/不为/==//=/包含/寻找 (also nested) must equal contents-only equality in "
                     "each of %d repetitions. (4) JSON parse order, object defaults, nested dictionaries, literals repeating a key, error messages: %d repetitions must be one behaviour. "
                     "(5) the same HTTP request (query parameters / headers whose names differ only in case, shuffled) served %d times through ZnHttpHandler: one answer; "
-                    "the site is modelled as collect-then-stable-sort, whose non-injective-key deviation TLC refutes"
+                    "the site is modelled as collect-then-stable-sort, whose non-injective-key deviation TLC refutes. (6) history independence: the corpus of (4) plus 15 programs in which a library call "
+                    "(JSON generation / parsing, formatting, text methods, file reading) is refused or fails part-way and is followed by calls that work, and programs that end in errors, executed 8 (40) rounds in ONE process, "
+                    "every round in another order: per program one outcome, whatever ran before it"
                     % (len(ev), N, N * 4, N * 2),
                sites_in_code=len(inv), sites_modelled=len(modelled), unmodelled_sites=unmodelled, stale_sites=stale, repetitions=N)
     if unmodelled or stale:
